@@ -463,6 +463,10 @@ def rule_inplace(repo, tier):
     if n == 0:
         raise AnalysisError('C12.INPLACE: no in-place write found in cumops_')
     for r in returns_of(g.node):
+        if r.value is None:
+            res.add(Finding('C12.INPLACE', g, 'cumops_ has a bare `return`: that path returns None, not the overwritten argument `%s`' % p0, node=r,
+                            construct='bare return'))
+            continue
         root = _view_root(repo, g, r.value, inline_straight(g.node, upto=r))
         res.inst({'function': g.fq, 'returns': src(r.value)[:60], 'shares storage with': root})
         if root != p0:
@@ -510,6 +514,52 @@ def _negdim_uses(fnode, dim='dim'):
     return out
 
 
+def _dim_guards(fnode):
+    """[(node, test, positive)]: asserts (positive: the test must hold) and `if test: raise` guards (negative) that mention the axis parameter"""
+    out = []
+    for n in ast.walk(fnode):
+        if isinstance(n, ast.Assert) and any(isinstance(x, ast.Name) and x.id == 'dim' for x in ast.walk(n.test)):
+            out.append((n, n.test, True))
+        elif isinstance(n, ast.If) and n.body and isinstance(n.body[0], ast.Raise) and any(isinstance(x, ast.Name) and x.id == 'dim' for x in ast.walk(n.test)):
+            out.append((n, n.test, False))
+    return out
+
+
+def _eval_guard(e, axis, d, r):
+    """evaluate an axis guard for dim = d on a tensor of rank r; ValueError when the guard mentions anything but dim, the rank and integers"""
+    if isinstance(e, ast.Constant) and isinstance(e.value, (int, bool)):
+        return e.value
+    if isinstance(e, ast.Name) and e.id == axis:
+        return d
+    if isinstance(e, ast.Attribute) and e.attr == 'ndim':
+        return r
+    if isinstance(e, ast.Call) and isinstance(e.func, ast.Attribute) and e.func.attr in ('dim', 'ndimension') and not e.args:
+        return r
+    if isinstance(e, ast.Call) and isinstance(e.func, ast.Name) and e.func.id == 'len' and e.args and isinstance(e.args[0], ast.Attribute) and e.args[0].attr == 'shape':
+        return r
+    if isinstance(e, ast.UnaryOp) and isinstance(e.op, ast.USub):
+        return -_eval_guard(e.operand, axis, d, r)
+    if isinstance(e, ast.UnaryOp) and isinstance(e.op, ast.Not):
+        return not _eval_guard(e.operand, axis, d, r)
+    if isinstance(e, ast.BinOp) and isinstance(e.op, (ast.Add, ast.Sub)):
+        a, b = _eval_guard(e.left, axis, d, r), _eval_guard(e.right, axis, d, r)
+        return a + b if isinstance(e.op, ast.Add) else a - b
+    if isinstance(e, ast.BoolOp):
+        vs = [_eval_guard(v, axis, d, r) for v in e.values]
+        return all(vs) if isinstance(e.op, ast.And) else any(vs)
+    if isinstance(e, ast.Compare):
+        vals = [_eval_guard(x, axis, d, r) for x in [e.left] + e.comparators]
+        ops = {ast.Lt: lambda a, b: a < b, ast.LtE: lambda a, b: a <= b, ast.Gt: lambda a, b: a > b, ast.GtE: lambda a, b: a >= b,
+               ast.Eq: lambda a, b: a == b, ast.NotEq: lambda a, b: a != b}
+        out = True
+        for op, a, b in zip(e.ops, vals, vals[1:]):
+            if type(op) not in ops:
+                raise ValueError('operator')
+            out = out and ops[type(op)](a, b)
+        return out
+    raise ValueError('outside the guard language: ' + ast.dump(e)[:40])
+
+
 @guarded
 def rule_negdim(repo, tier):
     res = RuleResult('C12.NEGDIM', 'the scans accept every dimension in either sign ("every dimension"): the axis argument is handed to torch as it is, or '
@@ -523,6 +573,28 @@ def rule_negdim(repo, tier):
         for node, why in uses:
             res.add(Finding('C12.NEGDIM', f, '`%s`: %s without normalising it first; for a negative dim (as valid as its non-negative twin) the count is '
                             'empty / the offset is wrong and the scan runs along another dimension' % (src(node)[:60], why), node=node))
+        # range guards on the axis: an assert (or `if ...: raise`) that compares dim with the rank must admit the whole range [-rank, rank - 1]
+        for node, test, positive in _dim_guards(f.node):
+            verdicts = {}
+            for r in (1, 3):
+                for d in (-r, r - 1, 0):
+                    try:
+                        v = _eval_guard(test, 'dim', d, r)
+                    except ValueError:
+                        v = None
+                    verdicts[(r, d)] = v
+            if any(v is None for v in verdicts.values()):
+                continue
+            rejected = sorted(k for k, v in verdicts.items() if v != positive)
+            res.inst({'function': f.fq, 'axis guard': src(test)[:60], 'admits -rank .. rank-1': not rejected}, (f.fq, 'guard', src(test)[:60]))
+            if rejected:
+                r, d = rejected[0]
+                res.add(Finding('C12.NEGDIM', f, 'the axis guard `%s` rejects dim = %d for a tensor of rank %d: every dimension from -rank to rank - 1 is a valid '
+                                'axis (dim = -rank is the first one)' % (src(test)[:60], d, r), node=node, construct='axis guard rejects a valid dim'))
+    fg = ast.parse('def f(v, dim):\n    assert -v.dim() < dim < v.dim()\ndef g(v, dim):\n    assert -v.dim() <= dim < v.ndim\n').body
+    okg = [[_eval_guard(t, 'dim', -3, 3) for _, t, _ in _dim_guards(x)] for x in fg]
+    if okg != [[False], [True]]:
+        raise AnalysisError('C12.NEGDIM: guard fixtures no longer classified (%r)' % okg)
     fx = ast.parse('def f(v, dim):\n    s = (slice(None),) * dim + (1,)\n    return v[s]\ndef g(v, dim):\n    dim = dim % v.dim()\n    s = (slice(None),) * dim + (1,)\n    return v[s]\n').body
     if len(_negdim_uses(fx[0])) != 1 or len(_negdim_uses(fx[1])) != 0:
         raise AnalysisError('C12.NEGDIM: fixtures no longer classified')
@@ -536,6 +608,39 @@ def rule_memo12(repo, tier):
                      'cache entry is published before it is complete', [OPS], floor=6)
 
 
+@guarded
+def rule_ret(repo, tier):
+    """The in-place variants are documented as the in-place VERSIONS of the functions: they return the scanned tensor.  Every path that does not
+    raise ends in `return <value>`; a path that falls off the end (or a bare return) hands None to `y = x.cumprod_(dim)` and to the LieTensor
+    methods built on them."""
+    res = RuleResult('C12.RET', 'every non-raising path of cumops_ / cummul_ / cumprod_ (and of the LieType / LieTensor methods of the same names) '
+                     'returns a value: the in-place variants return the scanned tensor, never None', floor=3)
+    targets = [(OPS, n) for n in ('cumops_', 'cummul_', 'cumprod_', 'cumops', 'cummul', 'cumprod')]
+    for cname in ('LieType', 'LieTensor'):
+        ci = repo.cls('pypose.lietensor.lietensor', cname)
+        for mname in ('cumops_', 'cummul_', 'cumprod_', 'cumops', 'cummul', 'cumprod'):
+            if mname in ci.methods:
+                targets.append(('pypose.lietensor.lietensor', cname + '.' + mname))
+    for mod, q in targets:
+        f = repo.func(mod, q)
+        pths, _ = paths.function_paths(f.node, limit=256, strict=False)
+        bad = None
+        n = 0
+        for ev, ex in pths:
+            if ex == 'raise':
+                continue
+            n += 1
+            last = next((e[1] for e in reversed(ev) if e[0] == 'stmt'), None)
+            if ex == 'fall' or (ex == 'return' and isinstance(last, ast.Return) and
+                                (last.value is None or (isinstance(last.value, ast.Constant) and last.value.value is None))):
+                bad = last if last is not None else f.node
+        res.inst({'function': f.fq, 'non_raising_paths': n, 'all_return_a_value': bad is None}, f.fq)
+        if bad is not None:
+            res.add(Finding('C12.RET', f, '%s has a path that ends without returning a value (after `%s`): the scan then returns None instead of '
+                            'the scanned tensor' % (q, src(bad)[:60]), node=bad, construct='path returns None'))
+    return res
+
+
 def rules(repo, tier):
     from ..optional import rule_optional
     from ..mode import mode_rules
@@ -543,6 +648,6 @@ def rules(repo, tier):
     from ..docsig import rule_docsig
     from ..axisdefault import rule_axisdefault
     from ..stale import rule_stale
-    return [rule_ki(repo, tier), rule_role(repo, tier), rule_sb(repo, tier), rule_clone_alias(repo, tier), rule_deleg(repo, tier), rule_ext(repo, tier), rule_inplace(repo, tier), rule_negdim(repo, tier), rule_memo12(repo, tier),
+    return [rule_ki(repo, tier), rule_role(repo, tier), rule_ret(repo, tier), rule_sb(repo, tier), rule_clone_alias(repo, tier), rule_deleg(repo, tier), rule_ext(repo, tier), rule_inplace(repo, tier), rule_negdim(repo, tier), rule_memo12(repo, tier),
             rule_stale(repo, 'C12.STALE', [(OPS, 'cumops_')]), rule_optional(repo, 'C12.OPT', [OPS])] + mode_rules(repo, 'C12', [OPS]) + [rule_callsig(repo, 'C12.SIG', [OPS]), rule_docsig(repo, 'C12.DOC', [OPS])] + [
             rule_axisdefault(repo, 'C12.AXDEF', [OPS])]
